@@ -26,7 +26,8 @@ type Keystore interface {
 	// Get retrieves a key from the Keystore if it exists, and returns ErrNoSuchKey
 	// otherwise.
 	Get(string) (ci.PrivKey, error)
-	// Delete removes a key from the Keystore
+	// Delete removes a key from the Keystore if it exists, and returns ErrNoSuchKey
+	// otherwise.
 	Delete(string) error
 	// List returns a list of key identifier
 	List() ([]string, error)
@@ -137,7 +138,11 @@ func (ks *FSKeystore) Delete(name string) error {
 
 	kp := filepath.Join(ks.dir, name)
 
-	return os.Remove(kp)
+	err = os.Remove(kp)
+	if errors.Is(err, fs.ErrNotExist) {
+		return ErrNoSuchKey
+	}
+	return err
 }
 
 // List return a list of key identifier
